@@ -71,7 +71,7 @@ fn main() {
 
     let n_max = ctx.pick(4, 5);
     let mut opts = UniOpts::new(n_max);
-    opts.kinds_std = vec![gen::Kind::Circle, gen::Kind::Slider1, gen::Kind::Slider2, gen::Kind::Spinner(600)];
+    opts.kinds_std = vec![gen::Kind::Circle, gen::Kind::Slider1, gen::Kind::Slider2, gen::Kind::Spinner(600), gen::Kind::SliderZeroRep];
     // (a hold note of zero length is still a hold note; one of 100 ms ends exactly where a note 100 ms later starts)
     opts.kinds_mania = vec![gen::Kind::Circle, gen::Kind::Hold(0), gen::Kind::Hold(100), gen::Kind::Hold(300)];
     opts.gaps = vec![0, 100, 400];
